@@ -30,7 +30,7 @@ def anchors():
 
 def cases(seed, tier):
     q = tier == "quick"
-    return [{"seed": [seed, 17, i], "count": 3} for i in range(48 if q else 600)]
+    return [{"seed": [seed, 17, i], "count": 3} for i in range(72 if q else 600)]
 
 
 def o_window(arr, be, layers, rescale, offset):
